@@ -209,7 +209,11 @@ Proof.
   intros H. unfold finish_obj. destruct (gw_objs S !! g) as [t|]; [|exact H].
   assert (H1 : irrel s (disarm_obj S g <| gw_objs := delete g (gw_objs (disarm_obj S g)) |>)).
   { apply irrel_objs_del, irrel_disarm_obj, H. }
-  destruct t; (eapply irrel_coreq; [|exact H1]); repeat split; reflexivity.
+  cbv zeta.
+  destruct t;
+    try (match goal with |- irrel _ (match ?x with Some _ => _ | None => _ end) => destruct x as [g'|] end;
+         [destruct (g' =? g)|]);
+    (eapply irrel_coreq; [|exact H1]); repeat split; reflexivity.
 Qed.
 
 Lemma irrel_buf_nil s S : irrel s S -> irrel s (S <| gw_buffer := [] |>).
@@ -786,15 +790,20 @@ Proof.
     assert (Hdata' : match data' with RsSn p => stored_ok (gw_handed_out s) p | RsAck _ _ => True end).
     { subst data'. destruct data; [apply stored_ok_set_dup; exact Hdata|exact I]. }
     match goal with |- context [arm ?S0 (TmRetry g) _] => assert (Hir : irrel s S0) end.
-    { apply irrel_buf_map; [exact HI|apply irrel_set_obj; [apply irrel_refl|cbn; split; assumption]|].
-      intros o p Hp. destruct o as [g'|]; [|exact Hp]. destruct (g' =? g); [|exact Hp].
+    { clearbody data'. destruct data as [p0|ka0 m0];
+        [|apply irrel_set_obj; [apply irrel_refl|cbn; split; assumption]].
+      apply irrel_buf_map; [exact HI|apply irrel_set_obj; [apply irrel_refl|cbn; split; assumption]|].
+      intros o p Hp. destruct o as [g'|]; [|exact Hp]. destruct ((g' =? g) && same_packet_obj p p0); [|exact Hp].
       cbn. apply stored_ok_set_dup. exact Hp. }
+    match goal with Hir' : irrel s ?S0 |- _ =>
+      assert (Hho : gw_handed_out S0 = gw_handed_out s) by (destruct data; reflexivity);
+      set (S1 := S0) in *; clearbody S1 end.
     clearbody data'. destruct data' as [p|ka m].
     + match goal with |- context [sn_send_owned ?S0 ?ow p] =>
         assert (HP : Post cfg c s (sn_send_owned S0 ow p));
           [|destruct (sn_send_owned S0 ow p) as [[s1 o] [|e]]; [exact HP|apply (post_catch _ _ _ _ _ e); exact HP]]
       end.
-      apply post_sn_send_owned; [|exact Hdata'].
+      apply post_sn_send_owned; [|change (stored_ok (gw_handed_out S1) p); rewrite Hho; exact Hdata'].
       apply irrel_good; [exact HI|]. apply irrel_arm. exact Hir.
     + apply post_mq_send. apply irrel_good; [exact HI|]. apply irrel_arm. exact Hir.
   - post_auto; good_tac.
@@ -1143,7 +1152,12 @@ Proof.
 Qed.
 
 Lemma finish_obj_cid s g : gw_client_id (finish_obj s g) = gw_client_id s.
-Proof. unfold finish_obj. destruct (gw_objs s !! g) as [t|]; [|reflexivity]. destruct t; reflexivity. Qed.
+Proof.
+  unfold finish_obj. destruct (gw_objs s !! g) as [t|]; [|reflexivity]. cbv zeta.
+  destruct t; try reflexivity;
+    (match goal with |- context [match ?x with Some _ => _ | None => _ end] => destruct x as [g'|] end;
+     [destruct (g' =? g)|]; reflexivity).
+Qed.
 
 Lemma seq_next_cid cfg s : gw_client_id (fst (fst (seq_next cfg s))) = gw_client_id s.
 Proof. unfold seq_next. destruct (gw_seq_next s =? max_tid cfg); reflexivity. Qed.
@@ -1402,7 +1416,12 @@ Proof.
 Qed.
 
 Lemma finish_obj_st s g : gw_st (finish_obj s g) = gw_st s.
-Proof. unfold finish_obj. destruct (gw_objs s !! g) as [t|]; [|reflexivity]. destruct t; reflexivity. Qed.
+Proof.
+  unfold finish_obj. destruct (gw_objs s !! g) as [t|]; [|reflexivity]. cbv zeta.
+  destruct t; try reflexivity;
+    (match goal with |- context [match ?x with Some _ => _ | None => _ end] => destruct x as [g'|] end;
+     [destruct (g' =? g)|]; reflexivity).
+Qed.
 
 Lemma seq_next_st cfg s : gw_st (fst (fst (seq_next cfg s))) = gw_st s.
 Proof. unfold seq_next. destruct (gw_seq_next s =? max_tid cfg); reflexivity. Qed.
